@@ -44,7 +44,7 @@ fn frame_body<const B: usize, const T: usize>(ty: u8) {
     let r = codec.decode(&mut buf);
     match &r {
         Ok(Some(_)) => {
-            kani::cover!(true, "some payload of this kind decodes");
+            kani::cover!(true, "opt:some payload of this kind decodes");
             assert!(buf.is_empty(), "consumed exactly the frame");
         }
         Ok(None) => panic!("complete frame present but decoder waits"),
@@ -52,6 +52,7 @@ fn frame_body<const B: usize, const T: usize>(ty: u8) {
             kani::cover!(true, "opt:some payload of this kind is rejected");
         }
     }
+    kani::cover!(true, "decoder returned (no panic path taken)");
     core::mem::forget(r);
 }
 
